@@ -17,6 +17,7 @@ type H struct {
 	seed uint64
 	t0   time.Time
 	abort bool
+	noReport int
 }
 
 func (h *H) logf(format string, a ...any) {
